@@ -550,6 +550,15 @@ class Engine:
             return agg.vnames.index(var)
         for en, vs in (('Option', None), ('Result', None), ('Poll', None), ('ControlFlow', None)):
             pass
+        # tokio::select! output enum: Out<_0, .., _n-1> has variants _0 .. _n-1, Disabled
+        tyname = agg.ty if isinstance(agg, (Opaque, Agg)) and getattr(agg, 'ty', None) else (agg.name if isinstance(agg, Agg) else '')
+        if '__tokio_select_util::Out' in (tyname or ''):
+            m = re.match(r'^_(\d+)$', str(var))
+            if m:
+                return int(m.group(1))
+            if var == 'Disabled':
+                h, a = generic_args(tyname.strip())
+                return len(a)
         # search all known enums by variant name (unique enough for std enums)
         cands = [(n, vs) for n, vs in self.si.enums.items() if var in vs]
         if agg is not None and isinstance(agg, Agg):
@@ -1084,6 +1093,8 @@ class Engine:
             ext = z3.SignExt if a.signed else z3.ZeroExt
             return Int(simp(ext(bits - a.bits, a.t)), bits, sg)
         if kind.startswith('PointerCoercion') or kind.startswith('PtrToPtr') or kind.startswith('Transmute') and isinstance(a, Ref):
+            return a
+        if kind.startswith('Subtype'):
             return a
         if kind.startswith(('FloatToInt', 'IntToFloat', 'FloatToFloat')):
             return self.fresh(st, ty, 'fcast')
